@@ -97,6 +97,18 @@ theorem escStringChars_getLast (r : Cps) (hr : ∀ c ∈ r, c ≠ cBackslash) :
       | none => simp [List.getLast?_cons] at hg
       | some y => rw [hg] at iht; simpa using iht
 
+/-- a text that does not end in a backslash has an empty trailing run of backslashes -/
+theorem trailingRun_nil (l : Cps) (h : l.getLast? ≠ some cBackslash) :
+    l.reverse.takeWhile (· = cBackslash) = [] := by
+  cases hl : l.reverse with
+  | nil => rfl
+  | cons x t =>
+    have : l.getLast? = some x := by
+      rw [← List.head?_reverse, hl]; rfl
+    rw [this] at h
+    have hx : x ≠ cBackslash := fun e => h (by rw [e])
+    simp [List.takeWhile, hx]
+
 /-- **strings**: for every content without a backslash (quotes, line breaks, parentheses, white space, non-ASCII …)
 the text `helper.string` writes is one complete CSS string that denotes exactly that content -/
 theorem helperString_denotes (r : Cps) (hr : ∀ c ∈ r, c ≠ cBackslash) :
@@ -104,7 +116,7 @@ theorem helperString_denotes (r : Cps) (hr : ∀ c ∈ r, c ≠ cBackslash) :
   have hl := escStringChars_getLast r hr
   have e : helperString r = cQuote :: (escStringChars r ++ [cQuote]) := by
     unfold helperString
-    simp only [hl, if_false, List.cons_append]
+    simp [trailingRun_nil _ hl]
   rw [e]
   unfold cssStringDenote
   simp only [true_or, if_true]
@@ -141,7 +153,7 @@ theorem helperUri_denotes (r : Cps) (hr : ∀ c ∈ r, c ≠ cBackslash) :
     have hs := helperString_denotes r hr
     have e : helperString r = cQuote :: (escStringChars r ++ [cQuote]) := by
       unfold helperString
-      simp only [escStringChars_getLast r hr, if_false, List.cons_append]
+      simp [trailingRun_nil _ (escStringChars_getLast r hr)]
     have pre : (cps "url(").isPrefixOf (cps "url(" ++ helperString r ++ [0x29]) = true := by
       simp [cps, List.isPrefixOf]
     have lst : (cps "url(" ++ helperString r ++ [0x29]).getLast? = some 0x29 := by simp
